@@ -47,7 +47,12 @@ impl Scenario for AppAddrScenario {
     }
 
     fn stub_components(&self) -> Vec<&'static str> {
-        vec!["physical layer (SimSocket)", "TCP accept loop", "user callbacks (recording stubs)", "scripted peers (reference codec)"]
+        vec![
+            "physical layer (SimSocket)",
+            "TCP accept loop",
+            "user callbacks (recording stubs)",
+            "scripted peers (reference codec)",
+        ]
     }
 
     fn generate(&self, rng: &mut Rng, _tier: Tier) -> SoutCase {
@@ -61,7 +66,11 @@ impl Scenario for AppAddrScenario {
         let mut clock = 9_000_000u64;
         let mut script = Vec::new();
         if cfg.unsolicited && rng.chance(2, 3) {
-            script.push(Op::Confirm { uns: true, seq: ConfSel::Expected, from: Who::Master });
+            script.push(Op::Confirm {
+                uns: true,
+                seq: ConfSel::Expected,
+                from: Who::Master,
+            });
             if rng.bool() {
                 script.push(unsol_op(rng, true));
             }
@@ -74,17 +83,29 @@ impl Scenario for AppAddrScenario {
                     let mut u = gen_update(rng, &cfg.points, &mut clock);
                     u.event_mode = 1;
                     script.push(Op::Update(u));
-                    script.push(read_op(vec![class_header(1, None), class_header(2, None), class_header(3, None)]));
+                    script.push(read_op(vec![
+                        class_header(1, None),
+                        class_header(2, None),
+                        class_header(3, None),
+                    ]));
                 }
                 1 => {
                     let mut u = gen_update(rng, &cfg.points, &mut clock);
                     u.event_mode = 1;
                     script.push(Op::Update(u));
                 }
-                2 => script.push(Op::Confirm { uns: rng.bool(), seq: ConfSel::Expected, from: Who::Master }),
+                2 => script.push(Op::Confirm {
+                    uns: rng.bool(),
+                    seq: ConfSel::Expected,
+                    from: Who::Master,
+                }),
                 _ => {}
             }
-            let from = if rng.chance(2, 3) { Who::Foreign(*rng.pick(&[2u16, 7, 1023, 65519])) } else { Who::Master };
+            let from = if rng.chance(2, 3) {
+                Who::Foreign(*rng.pick(&[2u16, 7, 1023, 65519]))
+            } else {
+                Who::Master
+            };
             let to = match rng.below(6) {
                 0 | 1 => Dest::Own,
                 2 => Dest::Bcast(0xFFFF),
@@ -100,38 +121,87 @@ impl Scenario for AppAddrScenario {
                     }
                     op
                 }
-                4 => Op::Raw { bytes: vec![0xC0 | rng.below(16) as u8, *rng.pick(&[0x70u8, 0x22, 0x7F, 0x10, 0x19])], from: from.clone(), to: to.clone() },
+                4 => Op::Raw {
+                    bytes: vec![
+                        0xC0 | rng.below(16) as u8,
+                        *rng.pick(&[0x70u8, 0x22, 0x7F, 0x10, 0x19]),
+                    ],
+                    from: from.clone(),
+                    to: to.clone(),
+                },
                 5 => {
                     // bad header flags on a request
                     let flags = *rng.pick(&[0x80u8, 0x40, 0x00, 0xD0, 0xE0, 0x90]);
-                    Op::Raw { bytes: vec![flags | rng.below(16) as u8, *rng.pick(&[1u8, 2, 5, 23]), 0x3C, 0x01, 0x06], from: from.clone(), to: to.clone() }
+                    Op::Raw {
+                        bytes: vec![
+                            flags | rng.below(16) as u8,
+                            *rng.pick(&[1u8, 2, 5, 23]),
+                            0x3C,
+                            0x01,
+                            0x06,
+                        ],
+                        from: from.clone(),
+                        to: to.clone(),
+                    }
                 }
-                6 => Op::Raw { bytes: vec![0xC0 | rng.below(16) as u8], from: from.clone(), to: to.clone() },
+                6 => Op::Raw {
+                    bytes: vec![0xC0 | rng.below(16) as u8],
+                    from: from.clone(),
+                    to: to.clone(),
+                },
                 _ => {
                     let mut bytes = vec![0xC0 | rng.below(16) as u8, *rng.pick(&[1u8, 2, 3, 5])];
                     let n = rng.urange(1, 20);
                     bytes.extend(rng.bytes(n));
-                    Op::Raw { bytes, from: from.clone(), to: to.clone() }
+                    Op::Raw {
+                        bytes,
+                        from: from.clone(),
+                        to: to.clone(),
+                    }
                 }
             };
             script.push(op);
             if rng.chance(1, 5) {
                 // a request split into two transport segments that come from different link sources (the second one from the
                 // configured master): it is not a fragment of the configured master and must not be executed or answered
-                if let Op::Request { func, headers, .. } = gen_executed_request(rng, &cfg.points, Dest::Own) {
-                    let bytes = refapp::build_request(refapp::Ctrl::request(rng.below(16) as u8), func, &headers);
+                if let Op::Request { func, headers, .. } =
+                    gen_executed_request(rng, &cfg.points, Dest::Own)
+                {
+                    let bytes = refapp::build_request(
+                        refapp::Ctrl::request(rng.below(16) as u8),
+                        func,
+                        &headers,
+                    );
                     if bytes.len() >= 2 {
                         let cut = rng.urange(1, bytes.len() - 1);
                         let tseq = rng.below(64) as u8;
                         let foreign = *rng.pick(&[2u16, 7, 1023, 65519]);
-                        let (first_src, second_src) = if rng.chance(3, 4) { (foreign, cfg.master_addr) } else { (cfg.master_addr, foreign) };
+                        let (first_src, second_src) = if rng.chance(3, 4) {
+                            (foreign, cfg.master_addr)
+                        } else {
+                            (cfg.master_addr, foreign)
+                        };
                         let mut wire = Vec::new();
                         let mut p1 = vec![0x40 | tseq];
                         p1.extend_from_slice(&bytes[..cut]);
                         let mut p2 = vec![0x80 | ((tseq + 1) & 0x3F)];
                         p2.extend_from_slice(&bytes[cut..]);
-                        wire.extend(crate::verif::refcodec::link::build_frame(&crate::verif::refcodec::link::RefFrame { ctrl: 0xC4, dest: cfg.outstation_addr, src: first_src, payload: p1 }));
-                        wire.extend(crate::verif::refcodec::link::build_frame(&crate::verif::refcodec::link::RefFrame { ctrl: 0xC4, dest: cfg.outstation_addr, src: second_src, payload: p2 }));
+                        wire.extend(crate::verif::refcodec::link::build_frame(
+                            &crate::verif::refcodec::link::RefFrame {
+                                ctrl: 0xC4,
+                                dest: cfg.outstation_addr,
+                                src: first_src,
+                                payload: p1,
+                            },
+                        ));
+                        wire.extend(crate::verif::refcodec::link::build_frame(
+                            &crate::verif::refcodec::link::RefFrame {
+                                ctrl: 0xC4,
+                                dest: cfg.outstation_addr,
+                                src: second_src,
+                                payload: p2,
+                            },
+                        ));
                         script.push(Op::WireBytes(wire));
                     }
                 }
@@ -226,8 +296,17 @@ impl Oracle for AddrOracle {
                 if state != 0 {
                     self.nontrivial = true;
                 }
-                let sol: Vec<&crate::verif::nodes::peer::RxFragment> = step.received.iter().filter(|r| r.bytes.len() >= 2 && r.bytes[1] == refapp::FUNC_RESPONSE).collect();
-                let mutating: Vec<&Cb> = step.callbacks.iter().map(|c| &c.1).filter(|c| c.is_mutating()).collect();
+                let sol: Vec<&crate::verif::nodes::peer::RxFragment> = step
+                    .received
+                    .iter()
+                    .filter(|r| r.bytes.len() >= 2 && r.bytes[1] == refapp::FUNC_RESPONSE)
+                    .collect();
+                let mutating: Vec<&Cb> = step
+                    .callbacks
+                    .iter()
+                    .map(|c| &c.1)
+                    .filter(|c| c.is_mutating())
+                    .collect();
                 if !mutating.is_empty() || !sol.is_empty() {
                     violation = Some(Violation::new(
                         "C07/app foreign-master-executed",
@@ -247,8 +326,17 @@ impl Oracle for AddrOracle {
             let bcast = s.dest >= 0xFFFD;
             let to_us = s.dest == self.own || (s.dest == 0xFFFC && self.self_address);
             let foreign = s.src != self.master;
-            let sol: Vec<&crate::verif::nodes::peer::RxFragment> = step.received.iter().filter(|r| r.bytes.len() >= 2 && r.bytes[1] == refapp::FUNC_RESPONSE).collect();
-            let mutating: Vec<&Cb> = step.callbacks.iter().map(|c| &c.1).filter(|c| c.is_mutating()).collect();
+            let sol: Vec<&crate::verif::nodes::peer::RxFragment> = step
+                .received
+                .iter()
+                .filter(|r| r.bytes.len() >= 2 && r.bytes[1] == refapp::FUNC_RESPONSE)
+                .collect();
+            let mutating: Vec<&Cb> = step
+                .callbacks
+                .iter()
+                .map(|c| &c.1)
+                .filter(|c| c.is_mutating())
+                .collect();
             let class = if s.bytes.len() < 2 {
                 0
             } else if s.bytes[0] & 0xF0 != 0xC0 {
@@ -282,13 +370,19 @@ impl Oracle for AddrOracle {
                     violation = Some(Violation::new(
                         "C07/app broadcast-link-reply",
                         "",
-                        format!("step {}: link frames {:?} transmitted in the step of a broadcast", step.op_index, step.link_frames),
+                        format!(
+                            "step {}: link frames {:?} transmitted in the step of a broadcast",
+                            step.op_index, step.link_frames
+                        ),
                     ));
                 } else if foreign && !self.any_master && !mutating.is_empty() {
                     violation = Some(Violation::new(
                         "C07/app foreign-master-executed",
                         "broadcast",
-                        format!("step {}: broadcast from foreign master {} caused {:?}", step.op_index, s.src, mutating),
+                        format!(
+                            "step {}: broadcast from foreign master {} caused {:?}",
+                            step.op_index, s.src, mutating
+                        ),
                     ));
                 }
             } else if to_us && foreign {
@@ -315,23 +409,40 @@ impl Oracle for AddrOracle {
                         violation = Some(Violation::new(
                             "C07/app foreign-master-executed",
                             "unicast",
-                            format!("step {}: fragment from foreign master {} caused {:?}", step.op_index, s.src, mutating),
+                            format!(
+                                "step {}: fragment from foreign master {} caused {:?}",
+                                step.op_index, s.src, mutating
+                            ),
                         ));
                     }
                 } else {
                     // any-master: the reply goes to the sender
                     for r in &sol {
-                        if r.bytes[0] & 0x0F == s.bytes.first().copied().unwrap_or(0) & 0x0F && r.bytes[0] & 0x80 != 0 && r.dest != s.src {
+                        if r.bytes[0] & 0x0F == s.bytes.first().copied().unwrap_or(0) & 0x0F
+                            && r.bytes[0] & 0x80 != 0
+                            && r.dest != s.src
+                        {
                             violation = Some(Violation::new(
                                 "C07/app reply-not-addressed-to-sender",
                                 "",
-                                format!("step {}: request from {} answered to {}", step.op_index, s.src, r.dest),
+                                format!(
+                                    "step {}: request from {} answered to {}",
+                                    step.op_index, s.src, r.dest
+                                ),
                             ));
                         }
                     }
                 }
             }
-            self.fp = mix(&[self.fp, bcast as u64, foreign as u64, class as u64, state as u64, self.any_master as u64, to_us as u64]);
+            self.fp = mix(&[
+                self.fp,
+                bcast as u64,
+                foreign as u64,
+                class as u64,
+                state as u64,
+                self.any_master as u64,
+                to_us as u64,
+            ]);
         }
         // session state for the next step
         for (_, cb) in &step.callbacks {
@@ -342,7 +453,9 @@ impl Oracle for AddrOracle {
                     self.sol_wait = false;
                 } else if s.starts_with("enter_unsolicited_confirm_wait") {
                     self.unsol_wait = true;
-                } else if s.starts_with("unsolicited_confirmed") || (s.starts_with("unsolicited_confirm_timeout") && s.ends_with("false")) {
+                } else if s.starts_with("unsolicited_confirmed")
+                    || (s.starts_with("unsolicited_confirm_timeout") && s.ends_with("false"))
+                {
                     self.unsol_wait = false;
                 }
             }
